@@ -278,6 +278,8 @@ func (sc *scenario) resumeCheck() {
 				cls = "input-dead-after-resume"
 			} else if pasteMarkersOnly(got, sc.exp2) {
 				cls = "paste-marker-lost-after-resume"
+			} else if mousePositionsOnly(got, sc.exp2) {
+				cls = "mouse-position-after-resume"
 			}
 			sc.find(cls, "after Suspend+Resume %d input events were injected (%s) but the delivered tail is %s", n, clipList(sc.exp2, 20), clipList(tail, 40))
 		}
@@ -351,6 +353,28 @@ func mouseButtonsOnly(got, want []string) bool {
 		}
 		gp, wp := strings.Split(g, "."), strings.Split(w, ".")
 		if !strings.HasPrefix(g, "M") || !strings.HasPrefix(w, "M") || len(gp) != 4 || len(wp) != 4 || gp[0] != wp[0] || gp[1] != wp[1] || gp[3] != wp[3] {
+			return false
+		}
+		diff = true
+	}
+	return diff
+}
+
+// mousePositionsOnly: the delivered tail has the events of want, in order, and differs only in the position of mouse events
+// (C12: the reported cell converted to 0-based and clipped into THE SCREEN — the one the terminal has now)
+func mousePositionsOnly(got, want []string) bool {
+	n := len(want)
+	if len(got) < n {
+		return false
+	}
+	diff := false
+	for i, w := range want {
+		g := got[len(got)-n+i]
+		if g == w {
+			continue
+		}
+		gp, wp := strings.Split(g, "."), strings.Split(w, ".")
+		if !strings.HasPrefix(g, "M") || !strings.HasPrefix(w, "M") || len(gp) != 4 || len(wp) != 4 || gp[2] != wp[2] || gp[3] != wp[3] {
 			return false
 		}
 		diff = true
